@@ -130,6 +130,10 @@ pub fn arm(on: bool) {
     ARMED.store(on, Ordering::SeqCst);
 }
 
+pub fn is_armed() -> bool {
+    ARMED.load(Ordering::SeqCst)
+}
+
 fn note_created(path: *const c_char, is_dir: bool) {
     if !ARMED.load(Ordering::SeqCst) || path.is_null() {
         return;
@@ -171,7 +175,8 @@ fn record(op: &str, path: *const c_char, extra: &str) {
         return;
     }
     let p = if path.is_null() { "<null>".to_string() } else { unsafe { CStr::from_ptr(path) }.to_string_lossy().to_string() };
-    if p == "/dev/null" || p.starts_with("/proc/") || p.starts_with("/dev/") {
+    // (device nodes and /proc are not files of anybody's; the memory file system below /dev/shm is)
+    if p == "/dev/null" || p.starts_with("/proc/") || (p.starts_with("/dev/") && !p.starts_with("/dev/shm/")) {
         return;
     }
     if let Ok(mut e) = EVENTS.try_lock() {
